@@ -51,6 +51,55 @@ def run_points(case):
     return dict(text=text, problems=problems)
 
 
+def run_points_passes(case):
+    """several passes over ONE PointsDataLoader: interleaved (a second iterator is started and consumed while the first is
+    in the middle of its pass) and/or served by worker processes; every pass by itself must present every sample (minus an
+    explicitly dropped tail) with intact pairing and bounded batch sizes"""
+    tp = common.use_repo()
+    import torch
+    n, bs, drop, shuffle = case["n"], case["bs"], case["drop"], case["shuffle"]
+    X, U = _mk_points(tp, torch)
+    idx = torch.arange(n, dtype=torch.float32)
+    xin = tp.spaces.Points(torch.stack([idx, idx + 0.5], dim=1), X)
+    yout = tp.spaces.Points((idx * 2 + 1).reshape(-1, 1), U)
+    loader = tp.utils.PointsDataLoader((xin, yout), batch_size=bs, shuffle=bool(shuffle), drop_last=bool(drop),
+                                       num_workers=case.get("workers", 0))
+    iters = [iter(loader) for _ in range(case["passes"])] if case["interleaved"] else None
+    got = [[] for _ in range(case["passes"])]
+    if case["interleaved"]:
+        live = list(range(case["passes"]))
+        k = 0
+        while live:
+            j = live[case["schedule"][k % len(case["schedule"])] % len(live)]
+            k += 1
+            try:
+                got[j].append(next(iters[j]))
+            except StopIteration:
+                live.remove(j)
+    else:
+        for j in range(case["passes"]):
+            got[j] = list(loader)
+    problems = []
+    need = n if not drop else (n // bs) * bs
+    for j, batches in enumerate(got):
+        seen = []
+        for b, (xb, yb) in enumerate(batches):
+            xs = xb.as_tensor[:, 0].tolist()
+            ys = yb.as_tensor[:, 0].tolist()
+            if len(xs) != len(ys) or any(2 * a + 1 != c for a, c in zip(xs, ys)) or xb.as_tensor[:, 1].tolist() != [a + 0.5 for a in xs]:
+                problems.append(f"pass {j}: pairing broken in batch {b}: inputs {xs} targets {ys}")
+            if len(xs) > bs:
+                problems.append(f"pass {j}: batch of {len(xs)} rows, requested {bs}")
+            seen += [int(a) for a in xs]
+        if len(set(seen)) < need:
+            problems.append(f"pass {j} of {case['passes']} ({'interleaved' if case['interleaved'] else 'consecutive'}, "
+                            f"{case.get('workers', 0)} worker processes) presented {len(set(seen))} of {n} samples "
+                            f"(at least {need} required); never presented e.g. {sorted(set(range(n)) - set(seen))[:4]}")
+        if len(batches) != len(loader):
+            problems.append(f"pass {j}: {len(batches)} batches, len(loader)={len(loader)}")
+    return dict(text=f"{len(loader)}", problems=problems)
+
+
 def run_deeponet(case):
     tp = common.use_repo()
     import torch
@@ -72,7 +121,23 @@ def run_deeponet(case):
     loader = tp.utils.DeepONetDataLoader(branch, trunk, out, F, X, U, bB, bT,
                                          shuffle_branch=bool(case["shB"]), shuffle_trunk=bool(case["shT"]))
     problems, batches, pairs = [], [], set()
+    # every fourth configuration: a second pass over the same loader is started after the first batch and runs interleaved
+    second = iter(loader) if (nB + nT + abs(bB) + case["shB"]) % 4 == 0 else None
+    pairs2 = set()
+
+    def pull_second():
+        if second is None:
+            return
+        try:
+            b2, t2, _ = next(second)
+        except StopIteration:
+            return
+        tt = t2.as_tensor
+        x2 = [int(v) for v in (tt[:, 0] if tt.dim() == 2 else tt[0, :, 0 if same else 1]).tolist()] if tt.shape[0] else []
+        pairs2.update((int(f), x) for f in b2.as_tensor[:, 0, 0].tolist() for x in x2)
+
     for k, (bb, tb, ob) in enumerate(loader):
+        pull_second()
         fs = [int(v) for v in bb.as_tensor[:, 0, 0].tolist()]
         o = ob.as_tensor
         t = tb.as_tensor
@@ -115,6 +180,12 @@ def run_deeponet(case):
         pairs |= {(f, x) for f in fs for x in xs}
         batches.append((" ".join(map(str, fs)), " ".join(map(str, xs))))
     missing = [(f, x) for f in range(nB) for x in range(nT) if (f, x) not in pairs]
+    if second is not None:
+        for _ in range(len(loader) + 1):
+            pull_second()
+        if not missing and len(pairs2) < nB * nT:
+            problems.append(f"a second pass over the same loader, run interleaved with the first, presented only {len(pairs2)} of "
+                            f"{nB * nT} function-location pairs (the first pass presented all)")
     text = f"{len(loader)} | " + " | ".join(f"{a} : {b}" for a, b in batches)
     return dict(text=text, problems=problems, missing=missing, presented=len(pairs))
 
@@ -234,7 +305,7 @@ def run_fold_deeponet(case):
 
 def model_line(case):
     k = case["kind"]
-    if k == "pts":
+    if k in ("pts", "pts2"):
         return f"pts {case['n']} {case['bs']} {case['drop']}"
     if k == "deeponet":
         lay = "unique" if case["layout"] == "uniqsame" else case["layout"]
@@ -258,6 +329,15 @@ def gen_cases(ctx):
             for drop in (0, 1):
                 for shuffle in (0, 1):
                     cases.append(dict(kind="pts", n=n, bs=bs, drop=drop, shuffle=shuffle))
+    for i in range(ctx.scale(120, 1200)):
+        n = rng.randint(2, 30)
+        cases.append(dict(kind="pts2", n=n, bs=rng.randint(1, n + 1), drop=rng.randint(0, 1), shuffle=rng.choice([0, 1, 1]),
+                          passes=rng.choice([2, 2, 3]), interleaved=rng.choice([0, 1, 1]),
+                          schedule=[rng.randint(0, 5) for _ in range(7)], workers=0))
+    for i in range(ctx.scale(3, 12)):   # batches dealt to worker processes (each worker owns a copy of the data set)
+        n = rng.randint(7, 25)
+        cases.append(dict(kind="pts2", n=n, bs=rng.randint(1, 4), drop=0, shuffle=1, passes=2, interleaved=0, schedule=[0],
+                          workers=rng.choice([2, 3])))
     M = ctx.scale(6, 9)
     sizes = list(itertools.product(range(1, M + 1), repeat=4))
     for (nB, bB, nT, bT) in sizes:
@@ -305,6 +385,8 @@ def evaluate(case):
 def _evaluate(case):
     if case["kind"] == "pts":
         return run_points(case)
+    if case["kind"] == "pts2":
+        return run_points_passes(case)
     if case["kind"] == "deeponet":
         return run_deeponet(case)
     return run_fold_deeponet(case) if case.get("loader") == "deeponet" else run_fold(case)
@@ -350,6 +432,13 @@ def judge(rep, case, res, model_reply):
     kind = case["kind"]
     if "error" in res:
         rep.fail(res["error"], case)
+        return
+    if kind == "pts2":
+        rep.count(f"pts-passes:{'interleaved' if case['interleaved'] else 'consecutive'}:workers={case.get('workers', 0)}")
+        if res["text"] != model_reply.split("|")[0].strip():
+            rep.disagree("loader length: drivers/C16.lean `pts` vs len(loader)", case, res["text"], model_reply)
+        for p in res["problems"]:
+            rep.fail(p, case)
         return
     if kind in ("pts", "deeponet"):
         rep.count(f"{kind}:{case.get('layout','')}")
